@@ -27,6 +27,8 @@ class GraphSolution:
     @classmethod
     def from_event_list(cls, event_list) -> "GraphSolution":
         """One node per eventId; one edge per previousEventIds entry (str or list)."""
+        # the in-memory otel2puml route hands over a one-shot generator of PV events
+        event_list = list(event_list)
         nodes: dict[str, EventSolution] = {}
         order: list[str] = []
         for event in event_list:
